@@ -6,7 +6,7 @@ from pyvc.sorts import (str_lit, is_alloc, STR, BOOL, INT, PYV, OBJ, SET, MAP, L
                         exc_issub)
 from pyvc.values import CallbackV, Sym
 from spec import json_spec as J
-from contracts.shapes import FIELDS as SH, Effect
+from contracts.shapes import FIELDS as SH, Effect, log_prefix, log_append, log_len
 
 M = 'file_builder.file_builder.FileBuilder.'
 And, Or, Not, Implies, If, ForAll = z3.And, z3.Or, z3.Not, z3.Implies, z3.If, z3.ForAll
@@ -210,7 +210,7 @@ CONTRACTS.append(guard_set(Contract(
     ],
     # any exception = refusal: nothing was touched
     raises=[ExcSpec('Exception', ensures=no_effect, modifies=NOTHING)],
-    modifies=lambda c: ['g:eff', 'g:fs_kind', 'g:fs_epoch'],
+    modifies=lambda c: ['g:eff', 'g:fs_kind', 'g:fs_epoch', 'g:rm_attempts'],
     loops={
         0: LoopSpec(inv=lambda c: [('no-callback', c.gnew('ncalls') == c.gentry('ncalls'))]),
         1: LoopSpec(inv=lambda c: [('no-callback', c.gnew('ncalls') == c.gentry('ncalls'))]),
@@ -226,7 +226,7 @@ CONTRACTS[-1].inlined_loops = {
 # ---------------------------------------------------------------------------------------------------
 # _build: for now only the frame facts its callers need (the body is verified under C02 below)
 def eff_grows(c):
-    return [('effects-only-appended', z3.PrefixOf(c.gold('eff'), c.gnew('eff')))]
+    return [('effects-only-appended', log_prefix(c.gold('eff'), c.gnew('eff')))]
 
 
 # heap fields a running build may change (everything else is fixed at construction)
@@ -240,20 +240,9 @@ BUILD_MODS = [
     'BuildDirs._removed_files', 'FileBackups._backups', 'FileBackups._next_backup_index',
     'SimpleOperationExecutor._hash_cache', 'FileBuilder._is_finished_build',
 ]
-BUILD_GHOSTS = ['g:eff', 'g:fs_kind', 'g:fs_epoch', 'g:ncalls']
+BUILD_GHOSTS = ['g:eff', 'g:fs_kind', 'g:fs_epoch', 'g:ncalls', 'g:rm_attempts']
 
-BUILD_WEAK = Contract(
-    M + '_build', props=['C02'], trusted=True,
-    params={'self': FB, 'cache_filename': STR, 'func': callback(), 'args': PYV, 'kwargs': PYV},
-    returns=PYV,
-    ensures=lambda c: eff_grows(c) + [('finished', c.new('FileBuilder._is_finished_build', c.self))],
-    raises=[ExcSpec('Exception', ensures=lambda c: eff_grows(c) + [
-        ('finished', c.new('FileBuilder._is_finished_build', c.self))]),
-        # KeyboardInterrupt & co. pass through `except Exception`: no roll-back, flag not set
-        ExcSpec('KeyboardInterrupt', ensures=eff_grows)],
-    modifies=lambda c: BUILD_MODS + BUILD_GHOSTS,
-)
-CONTRACTS.append(BUILD_WEAK)
+# (_build's contract: see the end of this module, where it is verified)
 
 
 def bv_mkdtemp_guard(eng, st, args):
@@ -284,10 +273,9 @@ def bv_mkdtemp_guard(eng, st, args):
 
 def first_effect_is_mkdtemp(c):
     e0, e1 = c.gold('eff'), c.gnew('eff')
-    n = z3.Length(e0)
     return Or(And(e1 == e0, c.gnew('ncalls') == c.gold('ncalls'),
                   c.gnew('fs_kind') == c.gold('fs_kind')),
-              And(z3.PrefixOf(e0, e1), z3.Length(e1) > n, Effect.is_Mkdtemp(e1[n])))
+              And(e1 > e0, c.gnew('mkdtemp_at') == e0))
 
 
 def bv_exit(eng, st, ctrl):
@@ -321,7 +309,7 @@ CONTRACTS.append(guard_set(Contract(
     ensures=lambda c: [('first-effect-is-the-backup-directory', first_effect_is_mkdtemp(c))],
     raises=[ExcSpec('BaseException', ensures=lambda c: [
         ('refused-or-first-effect-is-the-backup-directory', first_effect_is_mkdtemp(c))])],
-    modifies=lambda c: list(SH.keys()) + ['g:eff', 'g:fs_kind', 'g:fs_epoch', 'g:ncalls'],
+    modifies=lambda c: list(SH.keys()) + BUILD_GHOSTS + ['g:mkdtemp_at'],
     lemmas=['lookup_sanitized', 'sanitized_eqdom', 'rt_sanitized'],
 ), mkdtemp=bv_mkdtemp_guard))
 CONTRACTS[-1].exit_obligations = bv_exit
@@ -376,14 +364,7 @@ CONTRACTS.append(Contract(
 CONTRACTS[-1].fresh_props = ['C11']
 
 # _build_file / _subbuild as seen by their callers (bodies verified separately)
-BUILD_FILE_WEAK = Contract(
-    M + '_build_file', props=['C10'], trusted=True,
-    params={'self': FB, 'func': callback()}, returns=PYV,
-    requires=lambda c: build_state_wf(c),
-    ensures=lambda c: append_only(c, True),
-    raises=[ExcSpec('BaseException', ensures=lambda c: append_only(c, True))],
-    modifies=builder_mods)
-CONTRACTS.append(BUILD_FILE_WEAK)
+# (_build_file's contract is defined with its verification further below)
 
 
 def cb_args_fresh_hook(eng, st, f, pos, kws, starv, dstarv, node):
@@ -453,6 +434,20 @@ def cb_havoc_builder(eng, st, f, pos, kws, starv, dstarv):
         st.assume(f_)
 
 
+def own_subbuild_key(c):
+    op = cur_op(c)
+    return J.hsh(PyV.PList(PyVs.cons(PyV.PStr(c.old('ComplexOperation.func_name', op)),
+                                     PyVs.cons(c.old('Operation.args', op),
+                                               PyVs.cons(c.old('ComplexOperation.kwargs', op),
+                                                         PyVs.nil)))))
+
+
+def subbuild_taken(c):
+    """C08: a subbuild with JSON-equal name and arguments was already started in this build"""
+    nc = c.old('FileBuilder._new_cache', c.self)
+    return CA.OSB.is_some(c.old('Cache._subbuilds', nc)[CA.hkey(own_subbuild_key(c))])
+
+
 SUBBUILD_INNER = Contract(
     M + '_subbuild', props=['C11', 'C07', 'C08', 'C17'],
     params={'self': FB, 'func': callback()}, returns=PYV,
@@ -464,9 +459,15 @@ SUBBUILD_INNER = Contract(
         ('func-callable', c.args['func'].is_callable),
         ('record-is-new', z3.Length(c.old(SUBOPS, OPT_OP.val(op_of(c)))) == 0)]
     + build_state_wf(c),
-    ensures=lambda c: [('closed', c.new('Operation.is_finished', OPT_OP.val(op_of(c))))]
-    + append_only(c, True),
-    raises=[ExcSpec('BaseException', ensures=lambda c: append_only(c, True))],
+    ensures=lambda c: [('closed', c.new('Operation.is_finished', OPT_OP.val(op_of(c)))),
+                       ('function-skipped-only-if-version-unchanged', Implies(
+                           c.gnew('ncalls') == c.gold('ncalls'),
+                           versions_equal(c, c.old(FN, cur_op(c)))), ['C06']),
+                       ] + append_only(c, True),
+    raises=[ExcSpec('RuntimeError', when=subbuild_taken, guarded=True, forces=True,
+                    ensures=no_effect, modifies=NOTHING, props=['C08']),
+            ExcSpec('BaseException', when=lambda c: Not(subbuild_taken(c)), guarded=True,
+                    ensures=lambda c: append_only(c, True))],
     modifies=builder_mods,
 )
 SUBBUILD_INNER.callback_havoc = cb_havoc_builder
@@ -498,19 +499,7 @@ def cur_op(c):
 
 # (the two top-level lookups are defined with the replay functions below)
 
-APPLY = Contract(
-    M + '_apply_cached_suboperations', props=['C01', 'C14'], trusted=True,
-    params={'self': FB, 'operation': OBJ('ComplexOperation')},
-    ensures=lambda c: [('no-callback', c.gnew('ncalls') == c.gold('ncalls'))] + eff_grows(c),
-    raises=[ExcSpec('Exception', ensures=lambda c: [
-        ('no-callback', c.gnew('ncalls') == c.gold('ncalls'))] + eff_grows(c))],
-    modifies=lambda c: ['BuildDirs._build_dir_counts', 'BuildDirs._created_dirs_map',
-                        'BuildDirs._error_created_dirs', 'BuildDirs._removed_dirs',
-                        'BuildDirs._exists_dirs', 'BuildDirs._maybe_removed_dirs',
-                        'BuildDirs._removed_files', 'FileBackups._backups',
-                        'FileBackups._next_backup_index', 'SimpleOperationExecutor._hash_cache',
-                        'g:eff', 'g:fs_kind', 'g:fs_epoch'])
-CONTRACTS.append(APPLY)
+# (_apply_cached_suboperations: contract with its verification at the end of the module)
 
 USE_CACHED = Contract(
     'file_builder.cache.Cache.use_cached_operation', props=['C08', 'C01'], trusted=True,
@@ -776,7 +765,9 @@ ARE_SUBOPS = Contract(
 def no_effect_loop(c):
     return [('no-fs-effect', c.gnew('eff') == c.gentry('eff')),
             ('no-callback', c.gnew('ncalls') == c.gentry('ncalls')),
-            ('fs-unchanged', c.gnew('fs_kind') == c.gentry('fs_kind'))]
+            ('fs-unchanged', c.gnew('fs_kind') == c.gentry('fs_kind')),
+            ('fs-bookkeeping-unchanged', And(c.gnew('rm_attempts') == c.gentry('rm_attempts'),
+                                             c.gnew('fs_epoch') == c.gentry('fs_epoch')))]
 
 
 CONTRACTS.append(ARE_SUBOPS)
@@ -940,4 +931,544 @@ CONTRACTS.append(BFLOOKUP)
 def build_state_wf(c):
     """type invariant of the state shared by the builders of one build (established by
     build_versioned; assumed at the public entry points)"""
-    return record_axioms(c) + versions_wf(c) + old_cache_wf(c)
+    return record_axioms(c) + versions_wf(c) + old_cache_wf(c) + executor_coherent(c)
+
+
+# ===================================================================================================
+# virtual-view queries as seen by FileBuilder (semantics and verification: contracts/executor.py)
+EXECO = OBJ('SimpleOperationExecutor')
+
+
+# ===================================================================================================
+# commit / roll back / _build (C02, C03, C12, C01.L8, C16.P4)
+def in_list(lst, x):
+    return z3.Contains(lst, z3.Unit(x))
+
+
+def commit_remove_guard(eng, st, args):
+    p = args[0]
+    v = _StView(eng, st)
+    oc = eng.hread(st, 'FileBuilder._old_cache', env_t(st, 'self'))
+    return [('only-outputs-of-the-previous-build', CA.created(v, 'old', oc, p), ['C03', 'C01'])]
+
+
+def commit_rmdir_guard(eng, st, args):
+    p = args[0]
+    oc = eng.hread(st, 'FileBuilder._old_cache', env_t(st, 'self'))
+    err = eng.cur_args['norm_cased_error_created_dirs'].t
+    return [('only-dirs-created-by-this-or-the-previous-build',
+             Or(eng.hread(st, 'Cache._created_dirs', oc)[p], in_list(err, p)), ['C03', 'C12'])]
+
+
+COMMIT = guard_set(Contract(
+    M + '_commit', props=['C03', 'C01', 'C12', 'C10'],
+    params={'self': FB, 'norm_cased_error_created_dirs': LIST(STR)},
+    ensures=lambda c: [('no-callback', c.gnew('ncalls') == c.gold('ncalls'))] + eff_grows(c),
+    modifies=lambda c: EXEC_MODS + ['g:eff', 'g:fs_kind', 'g:fs_epoch', 'g:rm_attempts'],
+    local_types={'dirs_to_remove': SET(STR)},
+    loops={
+        0: LoopSpec(inv=lambda c: [('no-callback', c.gnew('ncalls') == c.gentry('ncalls')),
+                                   ('effects-appended', log_prefix(c.gentry('eff'), c.gnew('eff')))]),
+        1: LoopSpec(inv=lambda c: [
+            ('no-callback', c.gnew('ncalls') == c.gentry('ncalls')),
+            ('effects-appended', log_prefix(c.gentry('eff'), c.gnew('eff'))),
+            ('to-remove-are-error-dirs-or-old-dirs', ForAll([xs_], Implies(
+                c.v('dirs_to_remove')[xs_],
+                Or(in_list(c.norm_cased_error_created_dirs, xs_),
+                   c.new('Cache._created_dirs', c.new('FileBuilder._old_cache', c.self))[xs_])))),
+        ]),
+    },
+), remove=commit_remove_guard, rmdir=commit_rmdir_guard)
+COMMIT.inlined_loops = {'file_builder.FileBuilder._remove_empty_dirs': {0: LoopSpec(inv=lambda c: [
+    ('no-callback', c.gnew('ncalls') == c.gentry('ncalls')),
+    ('effects-appended', log_prefix(c.gentry('eff'), c.gnew('eff')))])}}
+CONTRACTS.append(COMMIT)
+
+
+# ---------------------------------------------------------------------------------------------------
+def bd_of(eng, st):
+    return eng.hread(st, 'FileBuilder._build_dirs', env_t(st, 'self'))
+
+
+def rollback_remove_guard(eng, st, args):
+    p = args[0]
+    v = _StView(eng, st)
+    nc = eng.hread(st, 'FileBuilder._new_cache', env_t(st, 'self'))
+    return [('only-files-built-by-this-build', CA.created(v, 'old', nc, p), ['C03', 'C02'])]
+
+
+def rollback_rmdir_guard(eng, st, args):
+    p = args[0]
+    return [('only-dirs-created-by-this-build', root_env(st)['dirs_to_remove'].t[p]
+             if isinstance(root_env(st).get('dirs_to_remove'), Sym) else z3.BoolVal(False),
+             ['C03', 'C02'])]
+
+
+def rollback_mkdir_guard(eng, st, args):
+    p = args[0]
+    oc = eng.hread(st, 'FileBuilder._old_cache', env_t(st, 'self'))
+    return [('only-dirs-recorded-by-the-previous-build',
+             eng.hread(st, 'Cache._created_dirs', oc)[p], ['C03', 'C02'])]
+
+
+CMAP = 'BuildDirs._created_dirs_map'
+OCMAP = SH[CMAP].osort()
+kk_ = z3.Const('fb!kk', StrS)
+
+
+def made_by_this_build(c, x, st='new'):
+    """x is a directory this build created: registered in BuildDirs (created or error-created) or
+    made for the cache file"""
+    rd = getattr(c, st)
+    bd = rd('FileBuilder._build_dirs', c.self)
+    return Or(z3.Exists([kk_], rd(CMAP, bd)[kk_] == OCMAP.some(x)),
+              rd('BuildDirs._error_created_dirs', bd)[x],
+              in_list(c.cache_file_created_dirs, x))
+
+
+ROLLBACK = guard_set(Contract(
+    M + '_roll_back', props=['C02', 'C03', 'C14'],
+    params={'self': FB, 'cache_file_created_dirs': LIST(STR)},
+    # C02.R2: rolling back never raises (raises=[] : every exceptional path is an obligation)
+    ensures=lambda c: [('no-callback', c.gnew('ncalls') == c.gold('ncalls')),
+                       ('backups-consumed', z3.Length(c.new(
+                           'FileBackups._backups', c.new('FileBuilder._backups', c.self))) == 0)]
+    + eff_grows(c),
+    modifies=lambda c: ['FileBackups._backups', 'g:eff', 'g:fs_kind', 'g:fs_epoch',
+                        'g:rm_attempts'],
+    local_types={'dirs_to_remove': SET(STR)},
+    loops={
+        0: LoopSpec(inv=lambda c: [
+            ('no-callback', c.gnew('ncalls') == c.gentry('ncalls')),
+            ('to-remove-were-made-by-this-build', ForAll([xs_], Implies(
+                c.v('dirs_to_remove')[xs_], made_by_this_build(c, xs_)))),
+            ('never-a-dir-of-the-previous-build', z3.BoolVal(True))]),
+        1: LoopSpec(inv=lambda c: [
+            ('no-callback', c.gnew('ncalls') == c.gentry('ncalls')),
+            ('effects-appended', log_prefix(c.gentry('eff'), c.gnew('eff'))),
+            ('to-remove-were-made-by-this-build', ForAll([xs_], Implies(
+                c.v('dirs_to_remove')[xs_], made_by_this_build(c, xs_))))]),
+    },
+), remove=rollback_remove_guard, rmdir=rollback_rmdir_guard, mkdir=rollback_mkdir_guard)
+_lp = LoopSpec(inv=lambda c: [('no-callback', c.gnew('ncalls') == c.gentry('ncalls')),
+                              ('effects-appended', log_prefix(c.gentry('eff'), c.gnew('eff')))])
+ROLLBACK.inlined_loops = {'file_builder.FileBuilder._remove_empty_dirs': {0: _lp},
+                          'file_builder.FileBuilder._create_dirs': {0: _lp}}
+CONTRACTS.append(ROLLBACK)
+
+
+# ---------------------------------------------------------------------------------------------------
+# _make_dirs (C10.B5, C14.F2, C03 guard on the move, C02.R3)
+IS_TEMP = z3.Function('is_temp_path', StrS, z3.BoolSort())
+
+
+def call_guard_set(con, **cg):
+    con.call_guards = cg
+    return con
+
+
+def makedirs_backup_guard(eng, st, cargs):
+    """C03/C02: a regular file standing where a directory is needed is moved aside only if it is
+    an output recorded by the previous build"""
+    p = cargs['filename'].t
+    v = _StView(eng, st)
+    oc = eng.hread(st, 'FileBuilder._old_cache', env_t(st, 'self'))
+    return [('moves-only-outputs-of-the-previous-build',
+             CA.created(v, 'old', oc, p, 'Cache._norm_cased_files'), ['C03', 'C02'])]
+
+
+def only_listed_changes(c, kind_now, made):
+    """fs differs from the entry state only at: directories this call made, old outputs it moved
+    aside, and the backup directory"""
+    k0 = c.gentry('fs_kind')
+    oc = c.new('FileBuilder._old_cache', c.self)
+    return ForAll([xs_], Implies(Not(IS_TEMP(xs_)), Or(
+        kind_now[xs_] == k0[xs_],
+        And(in_list(made, xs_), kind_now[xs_] == K_DIR, k0[xs_] == K_ABSENT),
+        And(k0[xs_] == K_FILE, CA.created(c, 'new', oc, xs_, 'Cache._norm_cased_files'),
+            Or(kind_now[xs_] == K_ABSENT, And(in_list(made, xs_), kind_now[xs_] == K_DIR))))))
+
+
+MAKE_DIRS = call_guard_set(Contract(
+    M + '_make_dirs', props=['C10', 'C14', 'C03', 'C02'],
+    params={'self': FB, 'dir_': STR}, returns=LIST(STR), ret_fresh=False,
+    requires=lambda c: [('not-in-backup-dir', ForAll([xs_], Implies(IS_TEMP(xs_), True)))],
+    ensures=lambda c: [('no-callback', c.gnew('ncalls') == c.gold('ncalls'))] + eff_grows(c),
+    raises=[ExcSpec('OSError', ensures=lambda c: [
+        ('no-callback', c.gnew('ncalls') == c.gold('ncalls')),
+        ('no-directory-left-behind', ForAll([xs_], Implies(
+            And(Not(IS_TEMP(xs_)), c.gnew('fs_kind')[xs_] == K_DIR,
+                c.gold('fs_kind')[xs_] != K_DIR),
+            c.gnew('rm_attempts')[xs_])), ['C10', 'C14']),
+    ] + eff_grows(c))],
+    modifies=lambda c: EXEC_MODS + ['FileBackups._backups', 'FileBackups._next_backup_index',
+                                    'g:eff', 'g:fs_kind', 'g:fs_epoch', 'g:rm_attempts'],
+    local_types={'made_dirs': LIST(STR)},
+    loops={0: LoopSpec(inv=lambda c: [
+        ('no-callback', c.gnew('ncalls') == c.gentry('ncalls')),
+        ('effects-appended', log_prefix(c.gentry('eff'), c.gnew('eff'))),
+        ('only-listed-changes', only_listed_changes(c, c.gnew('fs_kind'), c.v('made_dirs')))
+        if c.has('made_dirs') else ('shape', z3.BoolVal(True)),
+        ('rm-attempts-unchanged', c.gnew('rm_attempts') == c.gentry('rm_attempts')),
+    ])},
+), **{'file_backups.FileBackups.back_up_and_remove': makedirs_backup_guard})
+_lp2 = LoopSpec(inv=lambda c: [
+    ('no-callback', c.gnew('ncalls') == c.gentry('ncalls')),
+    ('effects-appended', log_prefix(c.gentry('eff'), c.gnew('eff'))),
+    # clean-up loop: every directory visited so far has had its rmdir attempted; nothing is
+    # created; attempts are never forgotten
+    ('visited-were-attempted', ForAll([xs_], Implies(c.loop['seen'][xs_],
+                                                     c.gnew('rm_attempts')[xs_]))),
+    ('only-removals', ForAll([xs_], Or(c.gnew('fs_kind')[xs_] == c.gold('fs_kind')[xs_],
+                                       c.gnew('fs_kind')[xs_] == K_ABSENT))),
+    ('attempts-only-grow', ForAll([xs_], Implies(c.gold('rm_attempts')[xs_],
+                                                 c.gnew('rm_attempts')[xs_]))),
+])
+MAKE_DIRS.inlined_loops = {'file_builder.FileBuilder._remove_empty_dirs': {0: _lp2}}
+CONTRACTS.append(MAKE_DIRS)
+
+
+# ===================================================================================================
+# preparing the target of build_file: _make_room, _prepare_file_creation (C03, C10, C02.R3)
+from contracts import executor as EXC_      # noqa: E402
+
+
+def allowed_move(eng, st, p):
+    """C03: the only regular files the library may move aside are the cache file, outputs recorded
+    by the previous build, and paths passed to build_file in this build"""
+    me = env_t(st, 'self')
+    v = _StView(eng, st)
+    oc = eng.hread(st, 'FileBuilder._old_cache', me)
+    nc = eng.hread(st, 'FileBuilder._new_cache', me)
+    ex = eng.hread(st, 'FileBuilder._simple_operation_executor', me)
+    cfn = eng.hread(st, 'SimpleOperationExecutor._norm_cased_cache_filename', ex)
+    return Or(p == cfn, CA.created(v, 'old', oc, p, NCF),
+              CA.OO.is_some(eng.hread(st, NCF, nc)[p]))
+
+
+def executor_coherent(c):
+    """the builder and its executor share the caches (established by build_versioned)"""
+    ex = c.old('FileBuilder._simple_operation_executor', c.self)
+    return [('executor-shares-caches', And(
+        c.old('SimpleOperationExecutor._old_cache', ex) == c.old('FileBuilder._old_cache', c.self),
+        c.old('SimpleOperationExecutor._new_cache', ex) == c.old('FileBuilder._new_cache', c.self),
+        c.old('SimpleOperationExecutor._build_dirs', ex)
+        == c.old('FileBuilder._build_dirs', c.self)))]
+
+
+def make_room_backup_guard(eng, st, cargs):
+    p = cargs['filename'].t
+    kind = eng.gread(st, 'fs_kind')
+    return [('moves-only-managed-files', Implies(kind[p] == K_FILE, allowed_move(eng, st, p)),
+             ['C03', 'C02'])]
+
+
+def make_room_rmdir_guard(eng, st, args):
+    return [('removes-only-directories-a-build-made', EXC_.BUILD_MADE(args[0]), ['C03'])]
+
+
+ROOM_MODS = lambda c: EXEC_MODS + ['FileBackups._backups', 'FileBackups._next_backup_index',
+                                   'g:eff', 'g:fs_kind', 'g:fs_epoch', 'g:rm_attempts']
+MAKE_ROOM = call_guard_set(guard_set(Contract(
+    M + '_make_room', props=['C03', 'C10', 'C02'],
+    params={'self': FB, 'dir_': STR, 'make_room_filename': STR},
+    requires=lambda c: executor_coherent(c) + [('a-build-made-this-directory',
+                                                EXC_.BUILD_MADE(c.dir_))],
+    ensures=lambda c: [('no-callback', c.gnew('ncalls') == c.gold('ncalls'))] + eff_grows(c),
+    raises=[ExcSpec('OSError', ensures=lambda c: [
+        ('no-callback', c.gnew('ncalls') == c.gold('ncalls'))] + eff_grows(c))],
+    modifies=ROOM_MODS,
+    local_types={'error': BOOL},
+    loops={0: LoopSpec(inv=lambda c: [
+        ('no-callback', c.gnew('ncalls') == c.gentry('ncalls')),
+        ('effects-appended', log_prefix(c.gentry('eff'), c.gnew('eff')))])},
+    lemmas=['PATHS'],
+), rmdir=make_room_rmdir_guard),
+    **{'file_backups.FileBackups.back_up_and_remove': make_room_backup_guard})
+CONTRACTS.append(MAKE_ROOM)
+
+PREPARE = Contract(
+    M + '_prepare_file_creation', props=['C03', 'C10', 'C14'],
+    params={'self': FB}, returns=LIST(STR),
+    requires=lambda c: wf_builder(c) + executor_coherent(c) + [
+        ('is-build-file', And(OPT_OP.is_some(op_of(c)),
+                              cls_of(cur_op(c)) == CLS['BuildFileOperation']))],
+    ensures=lambda c: [('no-callback', c.gnew('ncalls') == c.gold('ncalls'))] + eff_grows(c),
+    raises=[ExcSpec('OSError', ensures=lambda c: [
+        ('no-callback', c.gnew('ncalls') == c.gold('ncalls'))] + eff_grows(c))],
+    modifies=ROOM_MODS,
+)
+CONTRACTS.append(PREPARE)
+
+
+# ---------------------------------------------------------------------------------------------------
+# reuse of a cached output (C01.L7, C05.E2, C13.M5)
+def reuse_target_untouched(c):
+    """C05.E2: reusing a cached output leaves the file in place: no primitive names the target"""
+    fn = c.old('BuildFileOperation.filename', cur_op(c))
+    return [('target-kind-unchanged', c.gnew('fs_kind')[fn] == c.gold('fs_kind')[fn], ['C05'])]
+
+
+TRY_REUSE = Contract(
+    M + '_try_to_reuse_cached_file', props=['C01', 'C05', 'C13', 'C17', 'C06', 'C08'],
+    params={'self': FB}, returns=BOOL,
+    requires=lambda c: wf_builder(c) + build_state_wf(c) + own_args_json(c) + [
+        ('is-build-file', And(OPT_OP.is_some(op_of(c)),
+                              cls_of(cur_op(c)) == CLS['BuildFileOperation'])),
+        ('record-is-new', z3.Length(c.old(SUBOPS, cur_op(c))) == 0)],
+    ensures=lambda c: [
+        ('function-not-called', c.gnew('ncalls') == c.gold('ncalls'), ['C01', 'C05']),
+        ('closed-iff-reused', Implies(c.res, c.new('Operation.is_finished', cur_op(c))),
+         ['C17', 'C01']),
+        ('reused-only-if-version-unchanged', Implies(
+            c.res, versions_equal(c, c.old(FN, cur_op(c)))), ['C06']),
+        ('reused-only-if-output-exists', Implies(
+            c.res, c.gold('fs_kind')[c.old('BuildFileOperation.filename', cur_op(c))] == K_FILE),
+         ['C01', 'C13']),
+        ('current-comparison-result-recorded', Implies(
+            c.res, Not(J.is_none(c.new('BuildFileOperation.file_comparison_result', cur_op(c))))),
+         ['C13']),
+        ('not-reused-means-nothing-happened', Implies(Not(c.res), And(
+            c.gnew('eff') == c.gold('eff'), c.gnew('fs_kind') == c.gold('fs_kind'))), ['C01']),
+        ('own-failure-flags-untouched', And(
+            c.new(RAISED, cur_op(c)) == c.old(RAISED, cur_op(c)),
+            c.new(SETUPF, cur_op(c)) == c.old(SETUPF, cur_op(c)),
+            Implies(Not(c.res), c.new('Operation.is_finished', cur_op(c))
+                    == c.old('Operation.is_finished', cur_op(c))))),
+    ] + eff_grows(c) + append_only(c, True),
+    raises=[ExcSpec('Exception', ensures=lambda c: [
+        ('function-not-called', c.gnew('ncalls') == c.gold('ncalls'))]
+        + eff_grows(c) + append_only(c, True))],
+    modifies=builder_mods,
+    lemmas=['PATHS', 'ANC', 'lookup_sanitized', 'sanitized_eqdom'],
+)
+TRY_REUSE.lock_guards = {'Operation.is_finished': '_lock'}
+CONTRACTS.append(TRY_REUSE)
+
+
+# ---------------------------------------------------------------------------------------------------
+# _build_file (C08.D1, C10, C14.F1, C02.R3, C03)
+def own_filename(c):
+    return c.old('BuildFileOperation.filename', cur_op(c))
+
+
+def already_taken(c):
+    """C08: the path was already passed to build_file in this build (claimed or finished)"""
+    nc = c.old('FileBuilder._new_cache', c.self)
+    return CA.OO.is_some(c.old(NCF, nc)[own_filename(c)])
+
+
+def is_the_cache_file(c):
+    ex = c.old('FileBuilder._simple_operation_executor', c.self)
+    return own_filename(c) == c.old('SimpleOperationExecutor._norm_cased_cache_filename', ex)
+
+
+def build_file_backup_guard(eng, st, cargs):
+    p = cargs['filename'].t
+    me = env_t(st, 'self')
+    op = OPT_OP.val(eng.hread(st, 'FileBuilder._operation', me))
+    return [('moves-only-its-own-target', p == eng.hread(st, 'BuildFileOperation.filename', op),
+             ['C03', 'C02'])]
+
+
+REFUSED = lambda c: Or(already_taken(c), is_the_cache_file(c))
+BUILD_FILE = call_guard_set(Contract(
+    M + '_build_file', props=['C08', 'C10', 'C14', 'C03', 'C02', 'C17'],
+    params={'self': FB, 'func': callback()}, returns=PYV,
+    requires=lambda c: wf_builder(c) + build_state_wf(c) + executor_coherent(c) + is_bf_builder(c)
+    + [('record-is-new', And(z3.Length(c.old(SUBOPS, cur_op(c))) == 0,
+                             Not(c.old('ComplexOperation.raised', cur_op(c))),
+                             Not(c.old('Operation.is_finished', cur_op(c)))))],
+    ensures=lambda c: [
+        ('closed', c.new('Operation.is_finished', cur_op(c)), ['C17', 'C10']),
+        ('not-raised', Not(c.new('ComplexOperation.raised', cur_op(c))), ['C10']),
+    ] + append_only(c, True),
+    raises=[
+        # a second build_file for the same path (or for the cache file) is rejected before
+        # anything happens
+        ExcSpec('RuntimeError', when=REFUSED, guarded=True, forces=True,
+                ensures=no_effect, modifies=NOTHING, props=['C08']),
+        ExcSpec('BaseException', when=lambda c: Not(REFUSED(c)), guarded=True,
+                ensures=lambda c: append_only(c, True))],
+    modifies=builder_mods,
+), **{'file_backups.FileBackups.back_up_and_remove': build_file_backup_guard})
+CONTRACTS.append(BUILD_FILE)
+
+
+# ---------------------------------------------------------------------------------------------------
+# end of the build: _set_created_dirs, Cache.write, _build (C02, C12.CL5, C16.P4, C14.F6)
+CONTRACTS.append(Contract(
+    'file_builder.cache.Cache.write', props=['C16', 'C02', 'C14'], trusted=True,
+    params={'self': OBJ('Cache'), 'filename': STR},
+    ensures=lambda c: [
+        ('the-only-effect-is-writing-that-file', c.gnew('eff') == log_append(
+            c.gold('eff'), Effect.WriteOpen(c.filename))),
+        ('file-written', c.gnew('fs_kind') == z3.Store(c.gold('fs_kind'), c.filename, K_FILE)),
+        ('no-callback', c.gnew('ncalls') == c.gold('ncalls'))],
+    raises=[ExcSpec('Exception', ensures=lambda c: [
+        # the open may have created (or truncated) the file before the failure
+        ('at-most-that-file-touched', Or(
+            c.gnew('fs_kind') == c.gold('fs_kind'),
+            c.gnew('fs_kind') == z3.Store(c.gold('fs_kind'), c.filename, K_FILE))),
+        ('the-only-effect-is-writing-that-file', c.gnew('eff') == log_append(
+            c.gold('eff'), Effect.WriteOpen(c.filename))),
+        ('no-callback', c.gnew('ncalls') == c.gold('ncalls'))])],
+    modifies=lambda c: ['g:eff', 'g:fs_kind', 'g:fs_epoch'],
+    notes='serialises the record forest with json + gzip (file layer trusted, bounded stand-in)'))
+
+SET_CREATED = Contract(
+    M + '_set_created_dirs', props=['C12', 'C02', 'C10'],
+    params={'self': FB, 'cache_file_created_dirs': LIST(STR)}, returns=LIST(STR), ret_fresh=True,
+    ensures=lambda c: no_effect(c) + [
+        ('returns-only-error-created-dirs', ForAll([xs_], Implies(
+            in_list(c.res, xs_),
+            c.old('BuildDirs._error_created_dirs', c.old('FileBuilder._build_dirs', c.self))[xs_])),
+         ['C10', 'C12', 'C03']),
+        ('recorded-dirs-were-made-by-this-build', ForAll([xs_], Implies(
+            And(c.new('Cache._created_dirs', c.new('FileBuilder._new_cache', c.self))[xs_],
+                Not(c.old('Cache._created_dirs', c.old('FileBuilder._new_cache', c.self))[xs_])),
+            Or(z3.Exists([kk_], c.old(CMAP, c.old('FileBuilder._build_dirs', c.self))[kk_]
+                         == OCMAP.some(xs_)),
+               in_list(c.cache_file_created_dirs, xs_)))), ['C12', 'C03']),
+        ('cache-file-dirs-recorded', ForAll([xs_], Implies(
+            in_list(c.cache_file_created_dirs, xs_),
+            c.new('Cache._created_dirs', c.new('FileBuilder._new_cache', c.self))[xs_])), ['C12']),
+    ],
+    modifies=lambda c: [('Cache._created_dirs', c.old('FileBuilder._new_cache', c.self))],
+    local_types={'created_dirs': LIST(STR), 'norm_cased_created_dirs': SET(STR),
+                 'norm_cased_error_created_dirs': SET(STR)},
+    loops={0: LoopSpec(inv=lambda c: no_effect_loop(c) + [
+        ('error-dirs-only-shrink', ForAll([xs_], Implies(
+            c.v('norm_cased_error_created_dirs')[xs_],
+            c.new('BuildDirs._error_created_dirs', c.new('FileBuilder._build_dirs', c.self))[xs_]))),
+        ('collected-are-created-or-cache-dirs', ForAll([xs_], Implies(
+            in_list(c.v('created_dirs'), xs_),
+            Or(z3.Exists([kk_], c.new(CMAP, c.new('FileBuilder._build_dirs', c.self))[kk_]
+                         == OCMAP.some(xs_)),
+               in_list(c.cache_file_created_dirs, xs_))))),
+        ('visited-cache-dirs-collected', ForAll([xs_], Implies(
+            c.loop['seen'][xs_], in_list(c.v('created_dirs'), xs_)))),
+        ('known-set-is-listed', ForAll([xs_], Implies(
+            c.v('norm_cased_created_dirs')[xs_], in_list(c.v('created_dirs'), xs_)))),
+    ])},
+)
+CONTRACTS.append(SET_CREATED)
+
+
+# ---------------------------------------------------------------------------------------------------
+# _build (C02.R1, C16.P4, C14.F6, C17.Z2)
+def build_write_guard(eng, st, cargs):
+    """C16.P4: the cache file is (re)written only after the root function returned, after the
+    created directories were recorded, and with the previous cache file moved aside"""
+    me = env_t(st, 'self')
+    p = cargs['filename'].t
+    kind = eng.gread(st, 'fs_kind')
+    return [('root-function-has-returned', eng.hread(st, 'FileBuilder._is_finished_build', me),
+             ['C16', 'C02']),
+            ('writes-only-the-cache-file', p == eng.cur_args['cache_filename'].t, ['C03', 'C16']),
+            ('previous-cache-file-moved-aside-first', kind[p] != K_FILE, ['C16', 'C02', 'C14'])]
+
+
+def build_backup_guard(eng, st, cargs):
+    return [('moves-only-the-cache-file', cargs['filename'].t == eng.cur_args['cache_filename'].t,
+             ['C03', 'C02'])]
+
+
+def cb_havoc_root(eng, st, f, pos, kws, starv, dstarv):
+    cb_havoc_builder(eng, st, f, pos, kws, starv, dstarv)
+
+
+BACKUPS_OF = lambda c, st='new': getattr(c, st)('FileBackups._backups',
+                                                getattr(c, st)('FileBuilder._backups', c.self))
+BUILD = call_guard_set(Contract(
+    M + '_build', props=['C02', 'C16', 'C14', 'C17', 'C03'],
+    params={'self': FB, 'cache_filename': STR, 'func': callback(), 'args': PYV, 'kwargs': PYV},
+    returns=PYV,
+    requires=lambda c: executor_coherent(c) + [
+        ('root-builder', Not(OPT_OP.is_some(op_of(c)))),
+        ('func-callable', c.args['func'].is_callable)],
+    ensures=lambda c: eff_grows(c) + [('finished', c.new('FileBuilder._is_finished_build', c.self),
+                                       ['C17'])],
+    raises=[
+        # C02.R1: any Exception from the directory set-up, the root function, the bookkeeping or
+        # the cache write: the builder is closed, _roll_back has run (backups consumed), and the
+        # exception that propagates is the one that was raised (same object: `raise` re-raises)
+        ExcSpec('Exception', ensures=lambda c: eff_grows(c) + [
+            ('finished', c.new('FileBuilder._is_finished_build', c.self), ['C17', 'C02']),
+            ('rolled-back', z3.Length(BACKUPS_OF(c)) == 0, ['C02', 'C14']),
+        ]),
+        # KeyboardInterrupt & co. pass through `except Exception`: no roll-back, flag not set
+        ExcSpec('KeyboardInterrupt', ensures=eff_grows)],
+    modifies=lambda c: BUILD_MODS + BUILD_GHOSTS,
+), **{'cache.Cache.write': build_write_guard,
+      'file_backups.FileBackups.back_up_and_remove': build_backup_guard})
+BUILD.callback_havoc = cb_havoc_root
+CONTRACTS.append(BUILD)
+
+
+# ---------------------------------------------------------------------------------------------------
+# _apply_cached_suboperations (C01.L5, C14.F4)
+APPLY = Contract(
+    M + '_apply_cached_suboperations', props=['C01', 'C14', 'C03', 'C02'],
+    params={'self': FB, 'operation': OBJ('ComplexOperation')},
+    requires=lambda c: record_axioms(c) + [('record-wf', RWF(c.operation)),
+                                           ('is-complex', is_complex(c.operation))],
+    ensures=lambda c: [('no-callback', c.gnew('ncalls') == c.gold('ncalls'))] + eff_grows(c)
+    + append_only(c),
+    raises=[ExcSpec('Exception', ensures=lambda c: [
+        ('no-callback', c.gnew('ncalls') == c.gold('ncalls'))] + eff_grows(c) + append_only(c))],
+    modifies=lambda c: ['BuildDirs._build_dir_counts', 'BuildDirs._created_dirs_map',
+                        'BuildDirs._error_created_dirs', 'BuildDirs._removed_dirs',
+                        'BuildDirs._exists_dirs', 'BuildDirs._maybe_removed_dirs',
+                        'BuildDirs._removed_files', 'FileBackups._backups',
+                        'FileBackups._next_backup_index', 'SimpleOperationExecutor._hash_cache',
+                        'g:eff', 'g:fs_kind', 'g:fs_epoch', 'g:rm_attempts'],
+    loops={0: LoopSpec(inv=lambda c: [
+        ('no-callback', c.gnew('ncalls') == c.gentry('ncalls')),
+        ('effects-appended', log_prefix(c.gentry('eff'), c.gnew('eff')))])},
+)
+CONTRACTS.append(APPLY)
+
+
+# ---------------------------------------------------------------------------------------------------
+# case fixing is a no-op on POSIX (FileBuilder._IS_WINDOWS is False in the model)
+for _nm, _ps in (('_ensure_dir_case', {'self': FB, 'dir_': STR}),
+                 ('_ensure_dirs_case', {'self': FB, 'dirs': LIST(STR)})):
+    CONTRACTS.append(Contract(
+        M + _nm, props=['C10', 'C14', 'C01'], params=_ps,
+        ensures=lambda c: no_effect(c) + [
+            ('fs-bookkeeping-unchanged', And(c.gnew('rm_attempts') == c.gold('rm_attempts'),
+                                             c.gnew('fs_epoch') == c.gold('fs_epoch')))],
+        modifies=NOTHING,
+        loops={0: LoopSpec(inv=lambda c: no_effect_loop(c))}))
+
+
+# ---------------------------------------------------------------------------------------------------
+# remaining destructive call sites (C03: one guard per site)
+def rebuild_remove_guard(eng, st, args):
+    me = env_t(st, 'self')
+    op = OPT_OP.val(eng.hread(st, 'FileBuilder._operation', me))
+    return [('removes-only-its-own-failed-target',
+             args[0] == eng.hread(st, 'BuildFileOperation.filename', op), ['C03', 'C10'])]
+
+
+REBUILD.guards = {'remove': rebuild_remove_guard}
+
+
+def make_dirs_rmdir_guard(eng, st, args):
+    made = root_env(st).get('made_dirs')
+    return [('removes-only-directories-this-call-created',
+             in_list(made.t, args[0]) if isinstance(made, Sym) else z3.BoolVal(False),
+             ['C03', 'C10'])]
+
+
+MAKE_DIRS.guards = {'rmdir': make_dirs_rmdir_guard}
+
+
+def bv_rmtree_guard(eng, st, args):
+    return [('removes-only-its-own-temporary-directory', IS_TEMP(args[0]), ['C03', 'C15'])]
+
+
+for _c in CONTRACTS:
+    if _c.target == M + 'build_versioned':
+        _c.guards['rmtree'] = bv_rmtree_guard
